@@ -12,6 +12,8 @@ SIZES = {
     "skewed": (300, 3000),
     "mset": (250, 3000),
     "xml": (250, 3000),
+    "dupkeys": (150, 1500),
+    "cli": (250, 2500),
     "neareq": (1500, 15000),
     "msetdup": (200, 2500),
     "huge": (18, 60),
